@@ -115,6 +115,13 @@ theorem rpfc_table_scan_exact {S : List Str} {d : RPFC.D} (hst : RPFC.Stores S d
   obtain ⟨hne, _, _, _⟩ := validDict_facts hv
   exact RPFC.extractTable_stores hst hne
 
+/-- The `k`-th string of the RPFC table scan is `extract(k)`, and the scan has `numElements` strings. -/
+theorem rpfc_table_kth_is_extract {S : List Str} {d : RPFC.D} (hst : RPFC.Stores S d) (hv : validDict S = true)
+    (k : Nat) (h1 : 1 ≤ k) (h2 : k ≤ S.length) :
+    ∃ T, RPFC.extractTable d = some T ∧ T.length = d.elements ∧ RPFC.extract d k = some T[k - 1]? := by
+  obtain ⟨hne, _, _, _⟩ := validDict_facts hv
+  exact ⟨S, RPFC.extractTable_stores hst hne, hst.elements.symm, RPFC.extract_stores hst k h1 h2⟩
+
 /-- **RPFC scans starting at any in-bucket offset**: the iterator over the ID range `[left, right]` yields
 exactly the members with those IDs, in order, and stops there. -/
 theorem rpfc_range_scan_exact {S : List Str} {d : RPFC.D} (hst : RPFC.Stores S d) (left right : Nat)
